@@ -106,6 +106,7 @@ class Module:
                 self.inlined_string_constants = inline_new_string_constants(self.tree, set(str(_k2["<consts>"]).split()))
         # one-expression closures and partial objects bound to a local are read as the calls they abbreviate (octacheck.closures)
         self.reduced_abbreviations = 0
+        self.hoisted_nested = 0
         if not os.environ.get("OCTACHECK_NO_INLINE") and ("partial(" in text or "\n        def " in text or "\n    def " in text):
             from .inline import known_functions
 
@@ -125,6 +126,7 @@ class Module:
                     return ".".join(reversed(parts)) not in known_fns
 
                 self.reduced_abbreviations = reduce_local_abbreviations(self.tree, _is_new_nested)
+                self.hoisted_nested = self._hoist_closed_nested_defs(_is_new_nested)
         self.functions: dict[str, FuncInfo] = {}
         self.classes: dict[str, ClassInfo] = {}
         self.imports: dict[str, str] = {}  # local name -> dotted target (module-level)
@@ -145,6 +147,49 @@ class Module:
         from .localnames import canonicalise_module
 
         self.renamed_locals = canonicalise_module(self.name, self.functions)
+
+    def _hoist_closed_nested_defs(self, is_new) -> int:
+        """E8: a NEW nested function of a plain function that captures nothing of the enclosing call (every name it reads is its
+        own parameter / local, a builtin, a module-level name or a name the enclosing function imports), is only ever called
+        (never passed or returned), is not recursive, a generator, async or decorated, is the module-level helper it would be
+        if it had been written outside - and is then read in place by the helper inlining like any other new helper. Moved in
+        the parsed copy only; no-op on the pinned tree."""
+        import builtins as _b
+
+        module_names = {t.id for st in self.tree.body if isinstance(st, (ast.Assign, ast.AnnAssign)) for t in ast.walk(st) if isinstance(t, ast.Name) and isinstance(t.ctx, ast.Store)}
+        module_names |= {st.name for st in self.tree.body if isinstance(st, (ast.FunctionDef, ast.AsyncFunctionDef, ast.ClassDef))}
+        for st in self.tree.body:
+            if isinstance(st, (ast.Import, ast.ImportFrom)):
+                module_names |= {(a.asname or a.name).split(".")[0] for a in st.names}
+        moved = 0
+        for outer in [f for f in self.tree.body if isinstance(f, ast.FunctionDef)]:
+            outer_imports = {(a.asname or a.name).split(".")[0] for x in ast.walk(outer) if isinstance(x, (ast.Import, ast.ImportFrom)) for a in x.names}
+            for g in [x for x in outer.body if isinstance(x, ast.FunctionDef)]:
+                if not is_new(g) or g.decorator_list or g.name in module_names:
+                    continue
+                if any(isinstance(x, (ast.Yield, ast.YieldFrom, ast.Await, ast.Nonlocal, ast.Global, ast.Lambda, ast.FunctionDef, ast.AsyncFunctionDef, ast.ClassDef)) for st in g.body for x in ast.walk(st)):
+                    continue
+                own = {a.arg for a in g.args.args + g.args.kwonlyargs + g.args.posonlyargs} | ({g.args.vararg.arg} if g.args.vararg else set()) | ({g.args.kwarg.arg} if g.args.kwarg else set())
+                own |= {x.id for x in ast.walk(g) if isinstance(x, ast.Name) and isinstance(x.ctx, ast.Store)}
+                reads = {x.id for x in ast.walk(g) if isinstance(x, ast.Name) and isinstance(x.ctx, ast.Load)}
+                if g.name in reads:
+                    continue  # recursive
+                free = reads - own - module_names - outer_imports - set(dir(_b))
+                if free:
+                    continue  # captures a local of the enclosing call
+                # only ever called
+                uses = [x for x in ast.walk(outer) if isinstance(x, ast.Name) and x.id == g.name and isinstance(x.ctx, ast.Load)]
+                if not uses or not all(isinstance(getattr(u, "_parent", None), ast.Call) and getattr(u, "_parent").func is u for u in uses):
+                    continue
+                outer.body.remove(g)
+                self.tree.body.insert(self.tree.body.index(outer), g)
+                module_names.add(g.name)
+                moved += 1
+        if moved:
+            for parent in ast.walk(self.tree):
+                for child in ast.iter_child_nodes(parent):
+                    child._parent = parent  # type: ignore[attr-defined]
+        return moved
 
     def _fold_constant_tests_and_tuple_locals(self) -> None:
         """in functions into which a helper was read: `if True: A else: B` (a constant argument substituted for a parameter) is A;
